@@ -41,6 +41,7 @@ func (t *hTicker) Slot() phase0.Slot      { return phase0.Slot(t.slot.Load()) }
 type peerDuties struct {
 	pk        phase0.BLSPubKey
 	propSlots func(epoch uint64) []uint64
+	outside   bool // the validating node is NOT a member of the validator's committee (it only shares the subnet)
 }
 
 func (b *peerDuties) AttesterDuties(context.Context, phase0.Epoch, []phase0.ValidatorIndex) ([]*eth2apiv1.AttesterDuty, error) {
@@ -64,6 +65,9 @@ func (b *peerDuties) SubmitSyncCommitteeSubscriptions(context.Context, []*eth2ap
 	return nil
 }
 func (b *peerDuties) CommitteeActiveIndices(phase0.Epoch) []phase0.ValidatorIndex {
+	if b.outside {
+		return nil // duties of validators the node does not run are stored with inCommittee = false
+	}
 	return []phase0.ValidatorIndex{valIndex}
 }
 func (b *peerDuties) AllActiveIndices(phase0.Epoch, bool) []phase0.ValidatorIndex {
@@ -125,18 +129,27 @@ func (p *handlerPeer) tick(slot uint64) bool {
 }
 
 func dutyHandlerRuns(run *hx.Run, r *hx.Rng) {
+	dutyHandlerRun(run, r, false)
+	dutyHandlerRun(run, r, true) // the receiver validates messages of a validator it does not run
+}
+
+func dutyHandlerRun(run *hx.Run, r *hx.Rng, outside bool) {
 	w := world(4)
+	tagSuffix := ""
+	if outside {
+		tagSuffix = "-outside-committee"
+	}
 	var pk phase0.BLSPubKey
 	copy(pk[:], w.PKs[vMain])
 	// ---- proposer: duties in the first, a middle and the last slot of epochs 1000 and 1001
 	{
 		store := dutystore.New()
-		bn := &peerDuties{pk: pk, propSlots: func(e uint64) []uint64 { return []uint64{32 * e, 32*e + 14, 32*e + 31} }}
+		bn := &peerDuties{pk: pk, outside: outside, propSlots: func(e uint64) []uint64 { return []uint64{32 * e, 32*e + 14, 32*e + 31} }}
 		first := uint64(baseSlot)
 		w.SetClock(w.SlotStart(first))
 		peer := startHandler(w, "prop", store, bn)
 		defer peer.cancel()
-		c := NewCaseWithStore(run, w, store, "c10/duty-handlers/proposer")
+		c := NewCaseWithStore(run, w, store, outside, "c10/duty-handlers/proposer"+tagSuffix)
 		dutySlots := []uint64{first, first + 14, first + 31, first + 32, first + 46, first + 63}
 		traces := map[uint64]*Trace{}
 		for i, s := range dutySlots {
@@ -144,7 +157,7 @@ func dutyHandlerRuns(run *hx.Run, r *hx.Rng) {
 			if i%2 == 1 {
 				sc = scenarios[2]
 			}
-			traces[s] = BuildTrace(w, spectypes.BNRoleProposer, s, sc, hx.NewRng(run.Seed*17+s))
+			traces[s] = traceFor(4, spectypes.BNRoleProposer, sc, s, hx.NewRng(run.Seed*17+s))
 		}
 		type pendingMsg struct {
 			t *Trace
@@ -180,19 +193,19 @@ func dutyHandlerRuns(run *hx.Run, r *hx.Rng) {
 			}
 		}
 		c.Honest = 0
-		run.Tag("c10-run/duty-handlers-proposer")
-		run.Seen("c10|duty-handlers|proposer")
+		run.Tag("c10-run/duty-handlers-proposer" + tagSuffix)
+		run.Seen("c10|duty-handlers|proposer" + tagSuffix)
 	}
 	// ---- sync committee: the last epochs of sync period 3 and the first of period 4 (boundary at epoch 1024)
 	{
 		store := dutystore.New()
-		bn := &peerDuties{pk: pk, propSlots: func(uint64) []uint64 { return nil }}
+		bn := &peerDuties{pk: pk, outside: outside, propSlots: func(uint64) []uint64 { return nil }}
 		boundary := uint64(1024 * 32)
 		first := boundary - 40
 		w.SetClock(w.SlotStart(first))
 		peer := startHandler(w, "sync", store, bn)
 		defer peer.cancel()
-		c := NewCaseWithStore(run, w, store, "c10/duty-handlers/sync-committee")
+		c := NewCaseWithStore(run, w, store, outside, "c10/duty-handlers/sync-committee"+tagSuffix)
 		var late []*Trace
 		for slot := first; slot <= boundary+6; slot++ {
 			w.SetClock(w.SlotStart(slot))
@@ -212,7 +225,7 @@ func dutyHandlerRuns(run *hx.Run, r *hx.Rng) {
 			late = nil
 			if slot%8 == 7 || slot == boundary-1 || slot == boundary {
 				role := []spectypes.BeaconRole{spectypes.BNRoleSyncCommittee, spectypes.BNRoleSyncCommitteeContribution}[slot%2]
-				t := BuildTrace(w, role, slot, scenarios[2], hx.NewRng(run.Seed*19+slot))
+				t := traceFor(4, role, scenarios[2], slot, hx.NewRng(run.Seed*19+slot))
 				for k := range t.Msgs {
 					if t.Msgs[k].At < 8*time.Second || role == spectypes.BNRoleSyncCommitteeContribution {
 						c.Honest = 1
@@ -225,8 +238,8 @@ func dutyHandlerRuns(run *hx.Run, r *hx.Rng) {
 			}
 		}
 		c.Honest = 0
-		run.Tag("c10-run/duty-handlers-sync")
-		run.Seen("c10|duty-handlers|sync")
+		run.Tag("c10-run/duty-handlers-sync" + tagSuffix)
+		run.Seen("c10|duty-handlers|sync" + tagSuffix)
 	}
 }
 
